@@ -104,3 +104,170 @@ Theorem C18_flocq_binary_normalize_is_specfloat :
   SpecFloatLink.bits_of_SF64 (SpecFloat.binary_normalize 53 1024 z e szero).
 Proof. exact flocq_normalize_bits_specfloat. Qed.
 Print Assumptions C18_flocq_binary_normalize_is_specfloat.
+
+(* ======================================================================================================================
+   The ALGORITHM of `impl Ord for Number` (NumOrd.v: the nine match arms, OrderedFloat::cmp, cmp_int_float with its guards,
+   trunc, `as i128`, fractional tie-break and `unwrap`) computes the order of exact values `num_cmp` used above, so every
+   C18_order_* / C18_equal_iff_same_value / C18_nan_greatest statement is a statement about the code as written.  The
+   correspondence ops num_cmp / num_eq run this algorithm model against the crate. *)
+From JB Require Import NumOrd NumOrdProofs NumCodecProofs.
+Import ListNotations.
+
+Theorem C18_ord_algorithm_computes_the_order_of_values :
+  forall a b, num_in_range a = true -> num_in_range b = true ->
+  num_cmp_rs_res a b = Ok (num_cmp a b) /\ num_cmp_rs a b = num_cmp a b /\
+  num_eqb_rs_res a b = Ok (num_eqb a b) /\ num_eqb_rs a b = num_eqb a b.
+Proof.
+  intros a b Ha Hb. repeat split.
+  - exact (num_cmp_rs_res_correct a b Ha Hb).
+  - exact (num_cmp_rs_correct a b Ha Hb).
+  - exact (num_eqb_rs_res_correct a b Ha Hb).
+  - exact (num_eqb_rs_correct a b Ha Hb).
+Qed.
+Print Assumptions C18_ord_algorithm_computes_the_order_of_values.
+
+(* cmp_int_float on its own: for every integer strictly between -2^64 and 2^64 (every i64 and u64 cast to i128) and every
+   64-bit pattern, it returns the order of the exact values and its `unwrap` does not panic *)
+Theorem C18_cmp_int_float_is_exact :
+  forall l r, (r < two64)%N -> (- Z.of_N two64 < l < Z.of_N two64)%Z ->
+  cmp_int_float l r = Ok (ext_cmp (EFin (l * two1074)) (f_ext r)).
+Proof. exact cmp_int_float_spec. Qed.
+Print Assumptions C18_cmp_int_float_is_exact.
+
+(* OrderedFloat::cmp as written (lt and gt through ge) is the order of the extended values *)
+Theorem C18_ordered_float_cmp_is_exact : forall a b, of_cmp_rs a b = ext_cmp (f_ext a) (f_ext b).
+Proof. exact of_cmp_rs_spec. Qed.
+Print Assumptions C18_ordered_float_cmp_is_exact.
+
+(* the laws, stated of the algorithm *)
+Theorem C18_ord_algorithm_is_a_total_order :
+  forall a b c, num_in_range a = true -> num_in_range b = true -> num_in_range c = true ->
+  num_cmp_rs a a = Eq /\ num_cmp_rs a b = CompOpp (num_cmp_rs b a) /\
+  (forall o, num_cmp_rs a b = o -> num_cmp_rs b c = o -> num_cmp_rs a c = o) /\
+  (num_cmp_rs a b = Eq <-> scaled a = scaled b) /\
+  (scaled b = ENaN -> scaled a <> ENaN -> num_cmp_rs a b = Lt).
+Proof.
+  intros a b c Ha Hb Hc. repeat split.
+  - rewrite num_cmp_rs_correct by assumption. apply num_cmp_refl.
+  - apply num_cmp_rs_antisym; assumption.
+  - intros o. apply num_cmp_rs_trans; assumption.
+  - apply num_cmp_rs_eq_iff; assumption.
+  - apply num_cmp_rs_eq_iff; assumption.
+  - intros H1 H2. rewrite num_cmp_rs_correct by assumption. apply num_cmp_nan_greatest; assumption.
+Qed.
+Print Assumptions C18_ord_algorithm_is_a_total_order.
+
+(* non-vacuity on the boundaries: 2^53 (where `as f64` starts rounding), 2^63, 2^64 (the guards), -0.0 against 0, NaN *)
+Example C18_ord_algorithm_boundaries :
+  num_cmp_rs_res (NInt 9007199254740993) (NFloat 4845873199050653696) = Ok Gt /\          (* 2^53+1 > 2^53 as f64 *)
+  num_cmp_rs_res (NFloat 4845873199050653696) (NInt 9007199254740992) = Ok Eq /\
+  num_cmp_rs_res (NInt 9223372036854775807) (NFloat 4890909195324358656) = Ok Lt /\      (* i64::MAX < 2^63 as f64 *)
+  num_cmp_rs_res (NUInt 9223372036854775808) (NFloat 4890909195324358656) = Ok Eq /\
+  num_cmp_rs_res (NInt (-9223372036854775808)) (NFloat 14114281232179134464) = Ok Eq /\  (* i64::MIN = -2^63 as f64 *)
+  num_cmp_rs_res (NUInt 18446744073709551615) (NFloat F_TWO64) = Ok Lt /\                (* u64::MAX < 2^64 as f64 *)
+  num_cmp_rs_res (NUInt 18446744073709551615) (NFloat 4895412794951729151) = Ok Gt /\    (* ... > the double below 2^64 *)
+  num_cmp_rs_res (NFloat F_NEG_TWO64) (NInt (-9223372036854775808)) = Ok Lt /\
+  num_cmp_rs_res (NFloat 9223372036854775808) (NFloat 0) = Ok Eq /\                      (* -0.0 = 0.0 *)
+  num_cmp_rs_res (NFloat 9223372036854775808) (NInt 0) = Ok Eq /\                        (* -0.0 = 0 *)
+  num_cmp_rs_res (NUInt 0) (NFloat 9223372036854775808) = Ok Eq /\
+  num_cmp_rs_res (NInt 0) (NFloat 1) = Ok Lt /\                                          (* 0 < least subnormal *)
+  num_cmp_rs_res (NFloat F_NAN) (NFloat 18444492273895866369) = Ok Eq /\                 (* NaN = NaN, any payload *)
+  num_cmp_rs_res (NFloat F_INF) (NFloat F_NAN) = Ok Lt /\
+  num_cmp_rs_res (NUInt 18446744073709551615) (NFloat F_NAN) = Ok Lt /\
+  num_cmp_rs_res (NFloat F_NAN) (NInt 5) = Ok Gt.
+Proof. vm_compute. repeat split. Qed.
+
+(* ---- the codec ---- *)
+Theorem C18_codec_round_trip :
+  forall n, num_in_range n = true -> num_decode (compact_encode n) = Ok (normalise_num n).
+Proof. exact num_roundtrip. Qed.
+Print Assumptions C18_codec_round_trip.
+
+(* the round trip keeps the exact value (it only turns Int64 0 into UInt64 0 and every NaN into the canonical NaN) *)
+Theorem C18_codec_round_trip_keeps_the_value :
+  forall n, num_in_range n = true ->
+  exists m, num_decode (compact_encode n) = Ok m /\ scaled m = scaled n /\ num_cmp m n = Eq.
+Proof.
+  intros n Hr. exists (normalise_num n). split; [apply num_roundtrip; exact Hr|].
+  assert (E : scaled (normalise_num n) = scaled n).
+  { destruct n as [z|u|b]; cbn [normalise_num].
+    - destruct (z =? 0)%Z eqn:Ez; [|reflexivity]. apply Z.eqb_eq in Ez. subst z. reflexivity.
+    - reflexivity.
+    - destruct (f_is_nan b) eqn:En; [|reflexivity]. cbn [scaled]. rewrite (f_ext_nan b En). reflexivity. }
+  split; [exact E|]. apply num_cmp_eq_iff. exact E.
+Qed.
+Print Assumptions C18_codec_round_trip_keeps_the_value.
+
+(* the encoder writes 1, 2, 3, 5 or 9 bytes, and no byte string that decodes to the same number is shorter *)
+Theorem C18_compact_encode_is_the_shortest_form :
+  forall n, num_in_range n = true ->
+  In (length (compact_encode n)) [1; 2; 3; 5; 9]%nat /\
+  num_decode (compact_encode n) = Ok (normalise_num n) /\
+  forall bs m, bytes_ok bs -> num_decode bs = Ok m -> normalise_num m = normalise_num n ->
+               (length (compact_encode n) <= length bs)%nat.
+Proof.
+  intros n Hr. split; [apply compact_encode_length_cases|]. apply compact_encode_is_minimum. exact Hr.
+Qed.
+Print Assumptions C18_compact_encode_is_the_shortest_form.
+
+(* which length: 1 for zero, NaN and the infinities; tag + the least of 1, 2, 4, 8 bytes holding the integer; 9 for floats *)
+Theorem C18_compact_encode_length :
+  forall n, length (compact_encode n) =
+  match n with
+  | NInt z => if (z =? 0)%Z then 1%nat else S (int_width z)
+  | NUInt u => if (u =? 0)%N then 1%nat else S (uint_width u)
+  | NFloat b => if orb (f_is_nan b) (f_is_inf b) then 1%nat else 9%nat
+  end.
+Proof. exact compact_encode_length. Qed.
+Print Assumptions C18_compact_encode_length.
+
+(* Number::decode accepts exactly the seven documented forms (num_wire: tag, payload length, value read), whatever the
+   payload bytes are: it does NOT insist on the shortest form (a 9-byte Int64 holding 5 is read as Int64 5: example
+   NumCodecProofs.num_decode_accepts_non_shortest; the property constrains what the ENCODER emits); every other byte
+   string is an error, never a panic; what it accepts is an i64 / a u64 / a 64-bit pattern. *)
+Theorem C18_decode_accepts_exactly_the_documented_forms :
+  forall bs n, num_decode bs = Ok n <-> num_wire bs n.
+Proof. exact num_decode_accepts_iff. Qed.
+Print Assumptions C18_decode_accepts_exactly_the_documented_forms.
+
+Theorem C18_malformed_number_bytes_are_rejected :
+  forall bs,
+  (num_decode bs = Err EOther <-> (forall n, ~ num_wire bs n)) /\
+  ((exists n, num_decode bs = Ok n) <-> num_shape bs) /\
+  (~ num_shape bs -> num_decode bs = Err EOther) /\
+  num_decode bs <> Panic /\
+  (forall n, bytes_ok bs -> num_decode bs = Ok n -> num_in_range n = true).
+Proof.
+  intros bs. split; [apply num_decode_rejects_iff|]. split; [apply num_decode_ok_iff_shape|].
+  split; [apply num_decode_bad_shape_is_error|]. split; [apply num_decode_total|].
+  intros n. apply num_decode_in_range.
+Qed.
+Print Assumptions C18_malformed_number_bytes_are_rejected.
+
+(* ---- the integer views: exact or absent, never a different value.  Float64 has no integer view at all
+   (`Number::Float64(_) => None` in as_i64 / as_u64, also for 5.0) ---- *)
+Theorem C18_integer_views_are_exact_or_absent :
+  forall n, num_in_range n = true ->
+  (forall z, as_i64 n = Some z -> scaled n = EFin (z * two1074) /\ (- two63 <= z < two63)%Z) /\
+  (as_i64 n = None <->
+     (exists b, n = NFloat b) \/ (exists v, scaled n = EFin (v * two1074) /\ ~ (- two63 <= v < two63)%Z)) /\
+  (forall u, as_u64 n = Some u -> scaled n = EFin (Z.of_N u * two1074) /\ (u < two64)%N) /\
+  (as_u64 n = None <->
+     (exists b, n = NFloat b) \/ (exists v, scaled n = EFin (v * two1074) /\ ~ (0 <= v < Z.of_N two64)%Z)).
+Proof.
+  intros n Hr. split; [intros z; apply as_i64_exact; exact Hr|]. split; [apply as_i64_none_iff; exact Hr|].
+  split; [intros u; apply as_u64_exact; exact Hr|]. apply as_u64_none_iff; exact Hr.
+Qed.
+Print Assumptions C18_integer_views_are_exact_or_absent.
+
+(* the byte walkers (CompareWalk.v, Order.v, PathSem.v) call the specification `num_cmp` on numbers they have just decoded:
+   on such numbers (always in range, by the decoder) the algorithm returns the same answer *)
+Theorem C18_ord_algorithm_on_decoded_numbers :
+  forall bs1 bs2 x y, bytes_ok bs1 -> bytes_ok bs2 -> num_decode bs1 = Ok x -> num_decode bs2 = Ok y ->
+  num_cmp_rs_res x y = Ok (num_cmp x y) /\ num_eqb_rs_res x y = Ok (num_eqb x y).
+Proof.
+  intros bs1 bs2 x y H1 H2 D1 D2.
+  pose proof (num_decode_in_range bs1 x H1 D1) as Rx. pose proof (num_decode_in_range bs2 y H2 D2) as Ry.
+  split; [apply num_cmp_rs_res_correct; assumption|apply num_eqb_rs_res_correct; assumption].
+Qed.
+Print Assumptions C18_ord_algorithm_on_decoded_numbers.
